@@ -234,7 +234,7 @@ def replay_file(path, scratch=None):
 def replay_in_fresh_process(path, hashseed="0"):
     env = dict(os.environ)
     env["PYTHONHASHSEED"] = str(hashseed)
-    env["PYTHONPATH"] = VERIF
+    env["PYTHONPATH"] = VERIF + (os.pathsep + env["PYTHONPATH"] if env.get("PYTHONPATH") else "")
     p = subprocess.run([PY, "-m", "isim", "replay", path], env=env, cwd=VERIF, capture_output=True, text=True, timeout=1800)
     return p.returncode == 1 and "REPRODUCED" in p.stdout, p.stdout + p.stderr
 
